@@ -11,7 +11,8 @@ from vf.sym import load, progs, simple
 
 PROP = "C15"
 
-NEUTRAL_COLS = ["renamed_col"]
+# a neutral name, plus names that are only column names when the generator quotes them (SQL keywords / literals)
+NEUTRAL_COLS = ["renamed_col", "null", "order", "current_date", "true", "select", "group"]
 NEUTRAL_TABLES = ["renamed_table"]
 
 
